@@ -1,5 +1,19 @@
 //! Conformance harness binary: C32 redaction, C33 scrubbing.
+//!
+//!   vh-sec redaction-replay <chains.ndjson> <out.ndjson>
+//!   vh-sec redaction-selftest
+//!   vh-sec scrub-replay <sequences.ndjson> <observations.ndjson> <trace.ndjson> <variants> <trace_every>
+//!   vh-sec scrub-selftest
 use anyhow::{anyhow, Result};
+
+mod enc;
+mod redaction;
+mod scan;
+mod scrub;
+
+// C33 observes the heap through this allocator; outside a scanning window it is a pass-through to System.
+#[global_allocator]
+static ALLOC: scan::Scanning = scan::Scanning;
 
 pub fn seed() -> u64 {
     std::env::var("VERIF_SEED").ok().and_then(|s| s.parse().ok()).unwrap_or(1)
@@ -8,7 +22,28 @@ pub fn seed() -> u64 {
 fn main() -> Result<()> {
     let args: Vec<String> = std::env::args().collect();
     let cmd = args.get(1).map(|s| s.as_str()).unwrap_or("");
+    // panics in code under test are data (caught by catch_unwind); keep stderr quiet
+    if std::env::var("VH_SEC_VERBOSE").is_err() {
+        std::panic::set_hook(Box::new(|_| {}));
+    }
+    let need = |n: usize| -> Result<()> {
+        if args.len() < n {
+            Err(anyhow!("{cmd}: missing arguments"))
+        } else {
+            Ok(())
+        }
+    };
     match cmd {
+        "redaction-replay" => {
+            need(4)?;
+            redaction::replay(&args[2], &args[3], seed())
+        }
+        "redaction-selftest" => redaction::selftest(seed()),
+        "scrub-replay" => {
+            need(7)?;
+            scrub::replay(&args[2], &args[3], &args[4], args[5].parse()?, args[6].parse()?, seed())
+        }
+        "scrub-selftest" => scrub::selftest(),
         _ => Err(anyhow!("unknown subcommand {cmd}")),
     }
 }
